@@ -46,12 +46,14 @@ theorem nextAux_cont_line {line : Bytes} (h1 : line ≠ [10]) (h2 : line ≠ [13
 theorem nextAux_field_line {line k v : Bytes} (h1 : line ≠ [10]) (h2 : line ≠ [13, 10])
     (h3 : hasPrefix line [35] = false) (h4 : hasPrefix line [32] = false)
     (h5 : hasPrefix line [9] = false) (hs : splitN [58] 2 line = [k, v])
+    (h6 : hasPrefix (trimSpace k) [35] = false)
     (rest : List Bytes) (p : Paragraph) (lk : Bytes) :
     nextAux (line :: rest) p lk =
       nextAux rest ⟨if (lookup (trimSpace k) p.values).isSome then p.order
           else p.order ++ [trimSpace k], insert (trimSpace k) (trimSpace v) p.values⟩
         (trimSpace k) := by
   rw [nextAux, if_neg (by simp [h1, h2]), if_neg (by simp [h3]), if_neg (by simp [h4, h5]), hs]
+  simp only [h6, Bool.false_eq_true, if_false]
 
 /-! ### single lines of the grammar -/
 
@@ -148,13 +150,14 @@ theorem nextAux_field {f : Field} {c e : Bytes} (hc : FieldC f c) (hf : wfField 
     have := splitN_colon h58 ((if f.first.isEmpty then [] else pad) ++ f.first ++ t ++ e)
     simpa [List.append_assoc] using this
   have := nextAux_field_line (line := f.name ++ [58] ++ (if f.first.isEmpty then [] else pad) ++ f.first ++ t ++ e)
-    ?_ ?_ ?_ ?_ ?_ hs rest p lk
+    ?_ ?_ ?_ ?_ ?_ hs ?_ rest p lk
   · rw [this, trimSpace_of_noSpace hsp, trimSpace_value hv hp ht he]
   · rw [hname]; simp [ha10]
   · rw [hname]; simp [ha13]
   · rw [hname]; simp [hasPrefix_cons_singleton, Ne.symm ha35]
   · rw [hname]; simp [hasPrefix_cons_singleton, Ne.symm ha32]
   · rw [hname]; simp [hasPrefix_cons_singleton, Ne.symm ha9]
+  · rw [trimSpace_of_noSpace hsp, hname]; simp [hasPrefix_cons_singleton, Ne.symm ha35]
 
 /-! ### the value of a field -/
 
